@@ -1486,7 +1486,7 @@ class FlowIR(object):
                         producer=producer, filename=filename, method=method)
                     update_refs.append(extra_ref)
                 for ref in update_refs:
-                    expression = re.compile(r"%s((?:/[\w.*]+)+,*)?" % ref)
+                    expression = re.compile(r"%s((?:/[\w.*]+)+,*)?" % re.escape(ref))
                     orig_string = string
                     m = expression.search(string)
                     if m is not None:
